@@ -781,6 +781,10 @@ func (s *DB) getHistoricRootsAndNodes(
 		if err == nil {
 			err = kept.Mast.DiffLinks(ctx, nil, keep)
 		}
+		if err != nil && !skippable(err, true) {
+			// not knowing what a kept version needs is no licence to delete it
+			return nil, nil, fmt.Errorf("list nodes of %s: %w", keptName, err)
+		}
 		if err != nil && logFunc != nil {
 			logFunc(fmt.Sprintf("error listing nodes of %s: %v\n", keptName, err))
 		}
